@@ -3,6 +3,7 @@ package rules
 import (
 	"go/token"
 	"go/types"
+	"strings"
 
 	"golang.org/x/tools/go/ssa"
 
@@ -91,6 +92,22 @@ func freshReflectValue(v ssa.Value, depth int) string {
 		case "(reflect.Value).Elem":
 			if w := freshReflectValue(x.Call.Args[0], depth+1); w != "" {
 				return "Elem of " + w
+			}
+		default:
+			// a helper of the repository all of whose returns are fresh
+			if callee.Blocks != nil && strings.HasPrefix(core.PkgPathOf(callee), core.ModPath) && callee.Signature.Results().Len() == 1 {
+				all, any := true, false
+				core.Instrs(callee, func(ins ssa.Instruction) {
+					if ret, ok := ins.(*ssa.Return); ok && len(ret.Results) == 1 {
+						any = true
+						if freshReflectValue(ret.Results[0], depth+1) == "" {
+							all = false
+						}
+					}
+				})
+				if any && all {
+					return "made by reflect.New in the helper " + callee.Name()
+				}
 			}
 		}
 	case *ssa.Phi:
